@@ -7,6 +7,7 @@ import Driver.StyleOps
 import Driver.PubOps
 import Driver.UiOps
 import Driver.PresentOps
+import Driver.MediaOps
 
 /-
   One function per op of the line protocol.  Each takes the op's JSON (which also carries the
@@ -131,6 +132,7 @@ def dispatch (j : Json) : Except String Res := do
   | "hextoansi" => hexOp j
   | "config" => configOp j
   | "hook" => hookOp j
+  | "media" => mediaOp j
   | "render" => renderOp j
   | "styleexpr" => styleExprOp j
   | "problem" => problemOp j
